@@ -2,9 +2,9 @@ import Proofs.UncondBase
 /-!
 # UncondC02 — C02: verification = FIPS rule; outcomes on the named curves with NO primality hypothesis
 
-For every curve of `NamedPrimes.unconditionalCurves` (13 curves: p and n carry kernel-checked Pocklington certificates, the
+For every curve of `NamedPrimes.unconditionalCurves` (all 17 curves of the table since the last four certificates were found: p and n carry kernel-checked Pocklington certificates, the
 order of the base point is checked by kernel evaluation) the headline statements of C02 hold without any hypothesis about the
-curve, except `#E(𝔽_p) = n` where stated; for the 4 curves with one uncertified number (`…_<curve>`) with exactly that one.
+curve, except `#E(𝔽_p) = n` where stated.
 Generated from `Props/Uncond.lean` by harness/tools/primecerts/mkuncond_split.py.
 -/
 namespace UncondC02
@@ -23,45 +23,5 @@ theorem verifies_iff_fips (hr : r ∈ unconditionalCurves) :
   haveI := factP hr
   intro Q hQ e r' s
   exact Named.verifies_iff_fips (mem_table hr) (primeN hr) Q hQ e r' s
-
-theorem verifies_iff_fips_NIST384p (h : Nat.Prime Gen.curve_NIST384p.n) :
-    haveI : Fact (Nat.Prime Gen.curve_NIST384p.p) := ⟨prime_p_NIST384p⟩
-    ∀ (Q : Curve.Pt), OnCurve.Valid (baseCtx Gen.curve_NIST384p (checked_of_mem mem_NIST384p)) Q → ∀ e r' s : ℤ,
-    (verifies (OnCurve.ops (crvOf Gen.curve_NIST384p)) Q e r' s = .ok true ↔
-      Fips Gen.curve_NIST384p.n (baseCtx Gen.curve_NIST384p (checked_of_mem mem_NIST384p)).G (OnCurve.den (baseCtx Gen.curve_NIST384p (checked_of_mem mem_NIST384p)) Q)
-        OnCurve.xcOf e r' s) := by
-  haveI : Fact (Nat.Prime Gen.curve_NIST384p.p) := ⟨prime_p_NIST384p⟩
-  intro Q hQ e r' s
-  exact (Named.verifies_iff_fips mem_NIST384p h Q hQ e r' s).2
-
-theorem verifies_iff_fips_NIST521p (h : Nat.Prime Gen.curve_NIST521p.n) :
-    haveI : Fact (Nat.Prime Gen.curve_NIST521p.p) := ⟨prime_p_NIST521p⟩
-    ∀ (Q : Curve.Pt), OnCurve.Valid (baseCtx Gen.curve_NIST521p (checked_of_mem mem_NIST521p)) Q → ∀ e r' s : ℤ,
-    (verifies (OnCurve.ops (crvOf Gen.curve_NIST521p)) Q e r' s = .ok true ↔
-      Fips Gen.curve_NIST521p.n (baseCtx Gen.curve_NIST521p (checked_of_mem mem_NIST521p)).G (OnCurve.den (baseCtx Gen.curve_NIST521p (checked_of_mem mem_NIST521p)) Q)
-        OnCurve.xcOf e r' s) := by
-  haveI : Fact (Nat.Prime Gen.curve_NIST521p.p) := ⟨prime_p_NIST521p⟩
-  intro Q hQ e r' s
-  exact (Named.verifies_iff_fips mem_NIST521p h Q hQ e r' s).2
-
-theorem verifies_iff_fips_BRAINPOOLP384r1 (h : Nat.Prime Gen.curve_BRAINPOOLP384r1.p) :
-    haveI : Fact (Nat.Prime Gen.curve_BRAINPOOLP384r1.p) := ⟨h⟩
-    ∀ (Q : Curve.Pt), OnCurve.Valid (baseCtx Gen.curve_BRAINPOOLP384r1 (checked_of_mem mem_BRAINPOOLP384r1)) Q → ∀ e r' s : ℤ,
-    (verifies (OnCurve.ops (crvOf Gen.curve_BRAINPOOLP384r1)) Q e r' s = .ok true ↔
-      Fips Gen.curve_BRAINPOOLP384r1.n (baseCtx Gen.curve_BRAINPOOLP384r1 (checked_of_mem mem_BRAINPOOLP384r1)).G (OnCurve.den (baseCtx Gen.curve_BRAINPOOLP384r1 (checked_of_mem mem_BRAINPOOLP384r1)) Q)
-        OnCurve.xcOf e r' s) := by
-  haveI : Fact (Nat.Prime Gen.curve_BRAINPOOLP384r1.p) := ⟨h⟩
-  intro Q hQ e r' s
-  exact (Named.verifies_iff_fips mem_BRAINPOOLP384r1 prime_n_BRAINPOOLP384r1 Q hQ e r' s).2
-
-theorem verifies_iff_fips_BRAINPOOLP512r1 (h : Nat.Prime Gen.curve_BRAINPOOLP512r1.p) :
-    haveI : Fact (Nat.Prime Gen.curve_BRAINPOOLP512r1.p) := ⟨h⟩
-    ∀ (Q : Curve.Pt), OnCurve.Valid (baseCtx Gen.curve_BRAINPOOLP512r1 (checked_of_mem mem_BRAINPOOLP512r1)) Q → ∀ e r' s : ℤ,
-    (verifies (OnCurve.ops (crvOf Gen.curve_BRAINPOOLP512r1)) Q e r' s = .ok true ↔
-      Fips Gen.curve_BRAINPOOLP512r1.n (baseCtx Gen.curve_BRAINPOOLP512r1 (checked_of_mem mem_BRAINPOOLP512r1)).G (OnCurve.den (baseCtx Gen.curve_BRAINPOOLP512r1 (checked_of_mem mem_BRAINPOOLP512r1)) Q)
-        OnCurve.xcOf e r' s) := by
-  haveI : Fact (Nat.Prime Gen.curve_BRAINPOOLP512r1.p) := ⟨h⟩
-  intro Q hQ e r' s
-  exact (Named.verifies_iff_fips mem_BRAINPOOLP512r1 prime_n_BRAINPOOLP512r1 Q hQ e r' s).2
 
 end UncondC02
